@@ -960,7 +960,7 @@ func AdoptSession(p Persistence, c *Config) (client *Client, warn []error, fatal
 		} else {
 			last = releaseKeys[len(releaseKeys)-1] & publishIDMask
 		}
-		if last < txs.Received {
+		if last < txs.Completed {
 			// range overflows address space
 			last += publishIDMask + 1
 		}
